@@ -242,6 +242,15 @@ func c16ts(c *Ctx) {
 			child.SetWriter(w).SetErrorWriter(w)
 			lg = child
 			c.R.Add("cases_through_a_derived_logger_with_a_sibling", 1)
+			if r.Bool() {
+				// ... and AFTER the child exists its parent chooses a mode (the opposite one) and a layout for ITSELF
+				parent.SetUTCMode(utc != 2)
+				if r.Bool() {
+					parent.SetTimeFormat(gen.Pick(r, c16layouts))
+				}
+				derived += "; then the parent set its own mode"
+				c.R.Add("cases_whose_parent_set_its_own_time_options_after_the_child_existed", 1)
+			}
 		}
 		// the same settings given as options of New, each preceded by a conflicting one (the later option wins)
 		if derived == "-" && (layout != "" || utc != 0) && r.P(20) {
